@@ -14,7 +14,7 @@ PROP = {
     ],
 }
 TEXT = {
-    "text": "Coq theorems over all history files (arbitrary byte strings), origins, timeslots and values: read-after-write, no overwrite, stored-forever over arbitrary operation lists, frame, refusal before the origin and beyond the addressable range, exact byte effect of a save (no misplacement, header untouched); over all sequences of ticks/restarts/retransmissions with arbitrary record lists: all datagrams of one slot with non-zero power are byte-identical and carry the first accepted reading (for readings fitting 32 signed bits; refutation theorems with witnesses outside). The executable model is compared with the real store (exported wrappers) on generated operation lists incl. final file bytes, and with a real client.NewClient whose datagrams are captured at a UDP sink under random edit scripts and restarts, plus a real server's sync reply for the retransmission path.",
+    "text": "Coq theorems over all history files (arbitrary byte strings), origins, timeslots and values: read-after-write, no overwrite, stored-forever over arbitrary operation lists, frame, refusal before the origin and beyond the addressable range, exact byte effect of a save (no misplacement, header untouched); over all sequences of ticks/restarts/retransmissions with arbitrary record lists: all datagrams of one slot with non-zero power are byte-identical and carry the first accepted reading (for readings fitting 32 signed bits; refutation theorems with witnesses outside). The executable model is compared with the real store (exported wrappers) on generated operation lists incl. final file bytes, and with a real client.NewClient whose datagrams are captured at a UDP sink under random edit scripts and restarts, plus a real server's sync reply for the retransmission path. Added after seeded-change rounds: storage write faults on the history file (hook VerifHistoryWriteFault), saves and loads running concurrently on one store, suite lossylite (real client retransmitting against a rotated server through a lossy relay).",
     "note": "K3 (uint32 byte offset wrap) was reproduced by the history suite and repaired in /repo (fix: commit); the pre-repair arithmetic is kept as save_reading_nocheck with c09_offset_wrap_refuted. K2 is a recorded finding (keys k2-resend, k2-tick) observed on the real wire. Trusted: Coq kernel + vm_compute, harness (generators, oracles, UDP capture), Go's os.File semantics as modelled (short read = EOF, zero-fill).",
     "technique": "Coq proof (induction over operation/event lists with a store invariant; byte-level list reasoning) + differential correspondence (vm_compute) against the real store and a live client",
 }
